@@ -294,12 +294,13 @@ pub open spec fn acts_ok_o<'a>(acts: Seq<&'a ExprGroup<ActionExpr>>) -> bool { s
 /// what `JoinOutput::new` establishes about `chains` (its step split is verified as `split_branch_steps`; that the
 /// fields are filled from it is read off the code, see assumptions): `chains[b]` has `depths[b]` steps, every step has
 /// at least one action and is something the parser can produce
-pub open spec fn chains_wf(jo: JoinOutput) -> bool {
-    &&& jo.chains@.len() == jo.branch_count
-    &&& jo.depths@.len() == jo.branch_count
-    &&& forall|b: int| 0 <= b < jo.branch_count ==> (#[trigger] jo.chains@[b])@.len() == jo.depths@[b]
-    &&& forall|b: int, s: int| 0 <= b < jo.branch_count && 0 <= s < jo.depths@[b] ==> (#[trigger] jo.chains@[b]@[s])@.len() > 0 && acts_ok_o(jo.chains@[b]@[s]@)
+pub open spec fn chains_wf_f<'a>(branch_count: usize, depths: Seq<usize>, chains: Seq<Vec<Vec<&'a ExprGroup<ActionExpr>>>>) -> bool {
+    &&& chains.len() == branch_count
+    &&& depths.len() == branch_count
+    &&& forall|b: int| 0 <= b < branch_count ==> (#[trigger] chains[b])@.len() == depths[b]
+    &&& forall|b: int, s: int| 0 <= b < branch_count && 0 <= s < depths[b] ==> (#[trigger] chains[b]@[s])@.len() > 0 && acts_ok_o(chains[b]@[s]@)
 }
+pub open spec fn chains_wf(jo: JoinOutput) -> bool { chains_wf_f(jo.branch_count, jo.depths@, jo.chains@) }
 
 /// position of branch `b` among the branches active in `step` (hidden: the proofs below only need its two lemmas)
 #[verifier::opaque]
